@@ -375,8 +375,7 @@ def r6(p, rep):
             if isinstance(n, ast.Call) and norm(n.func).endswith("ConvertibleTensor"):
                 conc = common.kwarg(n, "concrete")
                 if isinstance(conc, ast.Name):
-                    cdefs = [a.value for a in walk_no_nested(g.node) if isinstance(a, ast.Assign) and any(isinstance(t, ast.Name) and t.id == conc.id for t in a.targets)]
-                    conc = cdefs[-1] if cdefs else conc
+                    conc = common.single_reaching_value(cfg, n, conc.id) or conc
                 ctext = norm(conc) if conc is not None else ""
                 if "parameters=" not in ctext:
                     continue  # the array / scalar arms
